@@ -293,6 +293,53 @@ def run_layout_case(ctx, conv, R, rng, size, fields, used, values=None, tag="lay
         ctx.fail("C10:encode.%s" % bad, "encode_dict wrote %s, reference %s" % (bytes(buf1).hex(), bytes(ref).hex()), wit)
     if buf1 != buf2:
         ctx.fail("C10:encode.order_dependent", "result depends on field order", wit)
+    # records that supply only some of the layout's fields (the others keep what the buffer held), among few or many entries that
+    # name no field (a 100-column row of which the layout takes five); written into the kinds of buffer callers encode into
+    if rng.random() < 0.35:
+        import array
+        import ctypes
+        import mmap
+
+        sub = [n_ for n_ in names if rng.random() < 0.6]
+        nstray = rng.choice([0, 3, 31, 32, 33, 40, 64, 120])
+        items = [("column_%d" % i, rng.choice([i, None, "text", b"\x01", [1, 2]])) for i in range(nstray)] + [(k, vals[k]) for k in sub]
+        rng.shuffle(items)
+        data3 = dict(items)
+        masks_only = all(f[0] == "m" for n_, f in zip(names, fields) if n_ in sub)
+        kind3 = rng.choice(["bytearray", "memoryview", "array_B", "mmap", "ctypes_ubyte"]) if masks_only and size else "bytearray"
+        if kind3 == "memoryview":
+            back3 = bytearray(prior)
+            buf3 = memoryview(back3)
+        elif kind3 == "array_B":
+            buf3 = array.array("B", bytes(prior))
+        elif kind3 == "mmap":
+            buf3 = mmap.mmap(-1, size)
+            buf3[:] = bytes(prior)
+        elif kind3 == "ctypes_ubyte":
+            buf3 = (ctypes.c_ubyte * size)(*prior)
+        else:
+            buf3 = bytearray(prior)
+        ref3 = bytearray(prior)
+        for name, f in zip(names, fields):
+            if name in sub:
+                if f[0] == "m":
+                    R.put(ref3, f[1], f[2], f[3], vals[name])
+                else:
+                    ref3[f[1] : f[1] + f[2] * f[3]] = vals[name]
+        wit3 = dict(wit, supplied=sub, entries_outside_the_layout=nstray, buffer=kind3)
+        ctx.count("partial_records_encoded")
+        ctx.add("encode_target_kinds", kind3)
+        ctx.add("entries_outside_the_layout", nstray)
+        try:
+            conv.encode_dict(data3, {k: check[k] for k in names}, buf3)
+            got3 = bytes(buf3[:]) if kind3 != "ctypes_ubyte" else bytes(bytearray(buf3))
+            if got3 != bytes(ref3):
+                ctx.fail("C10:encode.partial_record", "a record with %d of %d fields and %d other entries, encoded into a %s: %s, reference %s" % (len(sub), len(names), nstray, kind3, got3.hex(), bytes(ref3).hex()), wit3)
+        except Exception as e:  # noqa: BLE001
+            ctx.fail("C10:encode.raises.partial_record", "encode_dict of a record with %d of %d fields and %d other entries into a %s raised %s" % (len(sub), len(names), nstray, kind3, type(e).__name__), wit3, exc=e)
+        finally:
+            if kind3 == "mmap":
+                buf3.close()
     # decode what the reference encoded (plus noise outside): exact field bits
     out1 = {}
     src1 = bytearray(ref)
